@@ -1,8 +1,11 @@
 #!/bin/bash
-# run every check of the manifest at the given tier; print exit code and wall time
+# run checks of the manifest at the given tier; print exit code and wall time
+# usage: run_all.sh [quick|thorough] [ID ...]
 tier=${1:-quick}
+shift
+ids=${@:-C01 C02 C03 C04 C05 C06 C07 C08 C09 C10 C11 C12 C13 C14 C15 C16 C17 C18 C19 C20}
 cd /verif
-for id in C01 C02 C03 C04 C05 C06 C07 C08 C09 C10 C11 C12 C13 C14 C15 C16 C17 C18 C19 C20; do
+for id in $ids; do
   s=$(date +%s)
   out=$(python3-vt vk.py check $id --tier $tier 2>&1)
   rc=$?
